@@ -45,7 +45,7 @@ def main():
         print("NOT CONFIRMED")
         print(r1.stdout[-500:], r1.stderr[-500:])
         return 1
-    sid = "%s-%s" % (prop, x)
+    sid = "%s-%s" % (prop, sys.argv[4] if len(sys.argv) > 4 else x)
     d = os.path.join(HERE, "seeded", sid)
     os.makedirs(d, exist_ok=True)
     shutil.copy(patch, os.path.join(d, "patch.diff"))
